@@ -128,6 +128,11 @@ impl<T: Elem + SatisfyTraits<Tr>, M: MX, Tr: TrX + ?Sized> World<T, M, Tr> {
             let n = crate::track::with_ts(|ts| ts.as_mut_since(serial0));
             if n == 0 { out.fail(Class::Mem, "written-through-read-accessor", format!("clone() filled a new storage with {len} elements without ever calling its Mem::as_mut_ptr")); }
         }
+        // storage is requested once per vector: one clone() = one MemBuilder::build
+        if matches!(M::KIND, crate::caps::BK::Track | crate::caps::BK::TrackFixed) && r.is_ok() {
+            let built = crate::track::with_ts(|ts| ts.next_serial()) - serial0;
+            if built != 1 { out.fail(Class::Mem, "storage-requested-twice", format!("one clone() asked its MemBuilder for {built} storages (want exactly 1)")); }
+        }
         // `Clone` runs on the source's elements themselves (a bitwise stand-in is not the element: interior state, address)
         if T::SIZE != 0 && len > 0 {
             let base = self.a.downcast_ref::<T>().unwrap().as_ptr() as usize;
